@@ -99,3 +99,23 @@ package smpp
 //@     invariant @ser forall k int :: mapdom(tlvs, k) <==> (mapdom(M, k) && ordinv(ord, k) < iter)
 //@     invariant @ser forall k int :: mapdom(tlvs, k) ==> tlvs[k].tag == M[k].tag && tlvs[k].length == M[k].length && content(tlvs[k].value) == content(M[k].value)
 //@     decreases len(packet.rem(r))
+
+// ---------------------------------------------------------------- validity period (C19)
+// secs(v): the requested duration truncated to whole seconds. The relative form is 0000 DD hh mm ss 000R.
+
+//@ pure func secs(v Bytes) int = parsedur(v) / 1000000000
+
+//@ func ToValidatePeriod
+//@   props C19
+//@   ensures [C19 unparsable] !parseok(v) ==> result1 != nil && result0 == eps
+//@   ensures [C19 negative] parseok(v) && parsedur(v) < 0 ==> result1 != nil && result0 == eps
+//@   ensures [C19 zero] parseok(v) && isRelative && parsedur(v) >= 0 && secs(v) == 0 ==> result1 == nil && result0 == eps
+//@   ensures [C19 relative] parseok(v) && isRelative && result1 == nil && secs(v) > 0 ==> result0 == cat("0000", dec2(parsedur(v) / 86400000000000), dec2((parsedur(v) / 3600000000000) % 24), dec2((parsedur(v) / 60000000000) % 60), dec2((parsedur(v) / 1000000000) % 60), "000R") && parsedur(v) / 86400000000000 <= 99 && len(result0) == 16
+//@   ensures [C19 absolute] parseok(v) && !isRelative && result1 == nil ==> result0 == cat(tfmt12(inst(now) + parsedur(v)), "000+") && len(result0) == 16
+
+// The four fields of the relative form add up to the duration in whole seconds (pure integer arithmetic).
+//@ lemma relative_fields_denote(d int)
+//@   props C19
+//@   theory none
+//@   requires 0 <= d
+//@   ensures [C19 denotes] (d / 86400000000000) * 86400 + ((d / 3600000000000) % 24) * 3600 + ((d / 60000000000) % 60) * 60 + (d / 1000000000) % 60 == d / 1000000000
